@@ -321,6 +321,13 @@ func (mgrFamily) Exec(c *hc.Case) {
 			}
 		}
 		check(before, "after a create whose constructor panicked")
+		// what AllCircuits returns is the caller's: overwriting it (the in-place filter idiom) changes nothing
+		scr := m.AllCircuits()
+		for i := range scr {
+			scr[i] = nil
+		}
+		_ = append(scr[:0], nil, nil)
+		check(before, "after the caller overwrote the slice an earlier AllCircuits call had returned")
 		if cir, err := m.CreateCircuit("late-panic"); err != nil || cir == nil || m.GetCircuit("late-panic") != cir {
 			c.Viol = append(c.Viol, hc.Violation{Clause: "for CreateCircuit calls with one name exactly one succeeds", Detail: fmt.Sprintf("the name of a create that panicked cannot be created afterwards: %v", err), AtOp: len(c.Ops)})
 		}
